@@ -39,7 +39,7 @@ def column(h, values):
         a = numpy.empty(len(values), dtype=object)
         for i, v in enumerate(values):
             a[i] = v
-        return a
+        return a.view(symx.SymArray)
     return numpy.array([float(v) for v in values], dtype=float)
 
 
